@@ -1022,16 +1022,61 @@ def pattern_reg8(context, tree):
     return tree.value
 
 
-@arm_isa.pattern("reg", "I8TOI32(reg)", size=0)
-@arm_isa.pattern("reg", "U8TOI32(reg)", size=0)
-@arm_isa.pattern("reg", "I8TOU32(reg)", size=0)
-@arm_isa.pattern("reg", "U8TOU32(reg)", size=0)
-def pattern_i8toi32(self, tree, c0):
-    # TODO: do something?
-    # Sign extend for example?
-    return c0
+# An 8 or 16 bit value lives in a 32 bit register, and the high bits of that
+# register are not defined: the 8 and 16 bit add, subtract, multiply, shift
+# left, negate and invert do not reduce their result. An instruction that
+# depends on the high bits extends its operand into a new register first:
+# a cast to a wider type, a compare, a shift right, a divide or a remainder.
+def sign_extend_reg(context, value, bits):
+    """Sign extend the low bits of a value into a new register"""
+    d = context.new_reg(ArmRegister)
+    context.emit(Mov2(d, value, ShiftLsl(32 - bits)))
+    d2 = context.new_reg(ArmRegister)
+    context.emit(Mov2(d2, d, ShiftAsr(32 - bits)))
+    return d2
 
 
+def zero_extend_reg(context, value, bits):
+    """Zero extend the low bits of a value into a new register"""
+    d2 = context.new_reg(ArmRegister)
+    if bits == 8:
+        context.emit(AndImm(d2, value, 0xFF))
+    else:
+        d = context.new_reg(ArmRegister)
+        context.emit(Mov2(d, value, ShiftLsl(32 - bits)))
+        context.emit(Mov2(d2, d, ShiftLsr(32 - bits)))
+    return d2
+
+
+@arm_isa.pattern("reg", "I8TOI16(reg)", size=8)
+@arm_isa.pattern("reg", "I8TOU16(reg)", size=8)
+@arm_isa.pattern("reg", "I8TOI32(reg)", size=8)
+@arm_isa.pattern("reg", "I8TOU32(reg)", size=8)
+def pattern_i8toi32(context, tree, c0):
+    return sign_extend_reg(context, c0, 8)
+
+
+@arm_isa.pattern("reg", "U8TOI16(reg)", size=4)
+@arm_isa.pattern("reg", "U8TOU16(reg)", size=4)
+@arm_isa.pattern("reg", "U8TOI32(reg)", size=4)
+@arm_isa.pattern("reg", "U8TOU32(reg)", size=4)
+def pattern_u8toi32(context, tree, c0):
+    return zero_extend_reg(context, c0, 8)
+
+
+@arm_isa.pattern("reg", "I16TOI32(reg)", size=8)
+@arm_isa.pattern("reg", "I16TOU32(reg)", size=8)
+def pattern_i16toi32(context, tree, c0):
+    return sign_extend_reg(context, c0, 16)
+
+
+@arm_isa.pattern("reg", "U16TOI32(reg)", size=8)
+@arm_isa.pattern("reg", "U16TOU32(reg)", size=8)
+def pattern_u16toi32(context, tree, c0):
+    return zero_extend_reg(context, c0, 16)
+
+
+# A cast to a narrower type keeps the low bits:
 @arm_isa.pattern("reg", "U32TOI8(reg)", size=0)
 @arm_isa.pattern("reg", "U32TOU8(reg)", size=0)
 @arm_isa.pattern("reg", "I32TOI8(reg)", size=0)
@@ -1040,47 +1085,11 @@ def pattern_i8toi32(self, tree, c0):
 @arm_isa.pattern("reg", "U16TOU8(reg)", size=0)
 @arm_isa.pattern("reg", "I16TOI8(reg)", size=0)
 @arm_isa.pattern("reg", "I16TOU8(reg)", size=0)
-@arm_isa.pattern("reg", "U8TOI16(reg)", size=0)
-@arm_isa.pattern("reg", "U8TOU16(reg)", size=0)
+@arm_isa.pattern("reg", "U32TOU16(reg)", size=0)
+@arm_isa.pattern("reg", "U32TOI16(reg)", size=0)
+@arm_isa.pattern("reg", "I32TOI16(reg)", size=0)
+@arm_isa.pattern("reg", "I32TOU16(reg)", size=0)
 def pattern_i32toi8(context, tree, c0):
-    d2 = context.new_reg(ArmRegister)
-    context.emit(AndImm(d2, c0, 0xFF))
-    return d2
-
-
-@arm_isa.pattern("reg", "I8TOI16(reg)", size=8)
-@arm_isa.pattern("reg", "I8TOU16(reg)", size=8)
-def pattern_i8toi16(context, tree, c0):
-    """Sign extend the low 8 bits"""
-    d = context.new_reg(ArmRegister)
-    context.emit(Mov2(d, c0, ShiftLsl(24)))
-    d2 = context.new_reg(ArmRegister)
-    context.emit(Mov2(d2, d, ShiftAsr(24)))
-    return d2
-
-
-@arm_isa.pattern("reg", "U32TOU16(reg)", size=4)
-@arm_isa.pattern("reg", "U32TOI16(reg)", size=4)
-@arm_isa.pattern("reg", "I32TOI16(reg)", size=4)
-@arm_isa.pattern("reg", "I32TOU16(reg)", size=4)
-def pattern_i32toi16(context, tree, c0):
-    # d2 = context.new_reg(ArmRegister)
-    # context.emit(Sxth(d2, c0))
-    return c0
-
-
-@arm_isa.pattern("reg", "I16TOI32(reg)", size=4)
-def pattern_i16toi32(context, tree, c0):
-    # d2 = context.new_reg(ArmRegister)
-    # TODO:
-    # context.emit(Sxth(d2, c0))
-    return c0
-
-
-@arm_isa.pattern("reg", "I16TOU32(reg)", size=4)
-@arm_isa.pattern("reg", "U16TOI32(reg)", size=4)
-@arm_isa.pattern("reg", "U16TOU32(reg)", size=4)
-def pattern_i16tou32(context, tree, c0):
     return c0
 
 
@@ -1133,8 +1142,6 @@ def pattern_const8_1(context, tree):
 
 
 @arm_isa.pattern("stm", "CJMPI32(reg, reg)", size=2)
-@arm_isa.pattern("stm", "CJMPI16(reg, reg)", size=2)
-@arm_isa.pattern("stm", "CJMPI8(reg, reg)", size=2)
 def pattern_cjmp_signed(context, tree, c0, c1):
     op, yes_label, no_label = tree.value
     opnames = {"<": Blt, ">": Bgt, "==": Beq, "!=": Bne, "<=": Ble, ">=": Bge}
@@ -1146,8 +1153,6 @@ def pattern_cjmp_signed(context, tree, c0, c1):
 
 
 @arm_isa.pattern("stm", "CJMPU32(reg, reg)", size=2)
-@arm_isa.pattern("stm", "CJMPU16(reg, reg)", size=2)
-@arm_isa.pattern("stm", "CJMPU8(reg, reg)", size=2)
 def pattern_cjmp_unsigned(context, tree, c0, c1):
     op, yes_label, no_label = tree.value
     opnames = {
@@ -1166,6 +1171,35 @@ def pattern_cjmp_unsigned(context, tree, c0, c1):
     jmp_ins = B(no_label.name, jumps=[no_label])
     context.emit(Bop(yes_label.name, jumps=[yes_label, jmp_ins]))
     context.emit(jmp_ins)
+
+
+# cmp compares all bits of the registers, extend 8 and 16 bit values first:
+@arm_isa.pattern("stm", "CJMPI8(reg, reg)", size=18)
+def pattern_cjmp_i8(context, tree, c0, c1):
+    a = sign_extend_reg(context, c0, 8)
+    b = sign_extend_reg(context, c1, 8)
+    pattern_cjmp_signed(context, tree, a, b)
+
+
+@arm_isa.pattern("stm", "CJMPI16(reg, reg)", size=18)
+def pattern_cjmp_i16(context, tree, c0, c1):
+    a = sign_extend_reg(context, c0, 16)
+    b = sign_extend_reg(context, c1, 16)
+    pattern_cjmp_signed(context, tree, a, b)
+
+
+@arm_isa.pattern("stm", "CJMPU8(reg, reg)", size=10)
+def pattern_cjmp_u8(context, tree, c0, c1):
+    a = zero_extend_reg(context, c0, 8)
+    b = zero_extend_reg(context, c1, 8)
+    pattern_cjmp_unsigned(context, tree, a, b)
+
+
+@arm_isa.pattern("stm", "CJMPU16(reg, reg)", size=18)
+def pattern_cjmp_u16(context, tree, c0, c1):
+    a = zero_extend_reg(context, c0, 16)
+    b = zero_extend_reg(context, c1, 16)
+    pattern_cjmp_unsigned(context, tree, a, b)
 
 
 @arm_isa.pattern("reg", "ADDI32(reg, reg)", size=2)
@@ -1352,35 +1386,33 @@ def pattern_shr_u32(context, tree, c0, c1):
     return d
 
 
-@arm_isa.pattern("reg", "SHRI16(reg, reg)", size=4)
+# A shift right moves the high bits of the register into the value, extend
+# 8 and 16 bit values first:
+@arm_isa.pattern("reg", "SHRI16(reg, reg)", size=12)
 def pattern_shr_i16(context, tree, c0, c1):
     d = context.new_reg(ArmRegister)
-    # TODO: mask with 0xffff at some point?
-    context.emit(Asr(d, c0, c1))
+    context.emit(Asr(d, sign_extend_reg(context, c0, 16), c1))
     return d
 
 
-@arm_isa.pattern("reg", "SHRU16(reg, reg)", size=4)
+@arm_isa.pattern("reg", "SHRU16(reg, reg)", size=12)
 def pattern_shr_u16(context, tree, c0, c1):
     d = context.new_reg(ArmRegister)
-    # TODO: mask with 0xffff at some point?
-    context.emit(Lsr1(d, c0, c1))
+    context.emit(Lsr1(d, zero_extend_reg(context, c0, 16), c1))
     return d
 
 
-@arm_isa.pattern("reg", "SHRI8(reg, reg)", size=4)
+@arm_isa.pattern("reg", "SHRI8(reg, reg)", size=12)
 def pattern_shr8(context, tree, c0, c1):
     d = context.new_reg(ArmRegister)
-    # TODO: mask with 0xffff at some point?
-    context.emit(Asr(d, c0, c1))
+    context.emit(Asr(d, sign_extend_reg(context, c0, 8), c1))
     return d
 
 
-@arm_isa.pattern("reg", "SHRU8(reg, reg)", size=4)
+@arm_isa.pattern("reg", "SHRU8(reg, reg)", size=8)
 def pattern_shr_u8(context, tree, c0, c1):
     d = context.new_reg(ArmRegister)
-    # TODO: mask with 0xffff at some point?
-    context.emit(Lsr1(d, c0, c1))
+    context.emit(Lsr1(d, zero_extend_reg(context, c0, 8), c1))
     return d
 
 
